@@ -263,7 +263,13 @@ def cut_loop(ex, s, st, spec, ordn, n, item, is_while=False):
                 continue
             cur = h.heap[r.id]
             if isinstance(cur, dict):
-                raise SymErr('object record in loop modifies')
+                # an object record: the attributes the body assigns (syntactically) are havocked, the others are framed
+                rec = dict(cur)
+                for n2 in ast.walk(ast.Module(body=list(s.body), type_ignores=[])):
+                    if isinstance(n2, ast.Attribute) and isinstance(n2.ctx, ast.Store) and n2.attr in rec:
+                        rec[n2.attr] = havoc_like(ex, p + '.' + n2.attr, rec[n2.attr], h, spec)
+                h.heap[r.id] = rec
+                continue
             h.heap[r.id] = havoc_like(ex, p, cur.with_kind('bytes') if r.tag == 'bytearray' else cur, h, spec).with_kind(cur.kind)
         # definitions are substituted (after havoc, so they may mention havocked names)
         d = defs_at(h, k)
